@@ -147,6 +147,12 @@ func c07History(ap corpusApp, cfgi int, inputs []string, c *mc.Ctx) (sig, msg st
 		twins = append(twins, c07Twin{"persisted-mem-with-flush", s, cl})
 	}
 	{
+		// the application's functions keep their own data in the store handle the persister uses (examples/db)
+		s, cl := openBackend(ap.Build(), lsOpts{Mode: "persisted", Backend: "mem", Cfg: cfg})
+		s.AppUsesStore = true
+		twins = append(twins, c07Twin{"persisted-mem-store-shared-with-application", s, cl})
+	}
+	{
 		// a gateway that serves every request with one call of engine.Loop (initial input, nothing to read)
 		s, cl := openBackend(ap.Build(), lsOpts{Mode: "persisted", Backend: "mem", Cfg: cfg})
 		s.ViaLoop = true
